@@ -58,7 +58,7 @@ class TlcResult:
         self.depth = int(m.group(1)) if m else 0
         self.violated = re.findall(r"Invariant (\S+) is violated", out)
         self.violated += re.findall(r"Error: Action property (\S+) is violated", out)
-        if "Temporal properties were violated" in out:
+        if "Temporal properties were violated" in out or re.search(r"Temporal property \S+ was violated", out):
             self.violated.append("<temporal>")
         if "Deadlock reached" in out:
             self.violated.append("<deadlock>")
@@ -287,7 +287,7 @@ class Ctx:
         self.log("built %s in %.1fs" % (crate, time.time() - t))
         return os.path.join(HARNESS, "target", "debug", crate)
 
-    def harness(self, binary, cases, timeout=600, env=None, per_case_timeout=None):
+    def harness(self, binary, cases, timeout=600, env=None, per_case_timeout=None, max_failures=None):
         """Execute cases; returns list of result dicts aligned with cases:
         {"got":..} | {"panic": msg} | {"hang": True} | {"abort": rc}."""
         tag = "%d" % len(os.listdir(self.work))
@@ -337,9 +337,16 @@ class Ctx:
             restarts = 0
             status["i"] = culprit
             results[culprit] = status
+            failures = sum(1 for r in results if r is not None and ("hang" in r or "abort" in r))
+            if max_failures is not None and failures >= max_failures:
+                # enough evidence; the remaining cases of this batch are not executed
+                for k in range(len(results)):
+                    if results[k] is None:
+                        results[k] = {"i": k, "skipped": True}
+                break
             # keep the file consistent for append mode
             with open(outp, "a") as f:
-                f.write(json.dumps({"i": culprit, "skipped": True}) + "\n")
+                f.write(json.dumps(status) + "\n")
             start = culprit + 1
         for i, r in enumerate(results):
             if r is None:
